@@ -439,7 +439,7 @@ fn format_directive<'entry>(
         // - "." also returns "."
         // - ".." returns "." (???)
         // These are all (thankfully) documented on the find(1) man page.
-        FormatDirective::Dirname => match file_info.path().parent() {
+        FormatDirective::Dirname => match file_info.parent() {
             None => "".into(),
             Some(p) if p == Path::new("/") => "".into(),
             Some(p) if p == Path::new("") => ".".into(),
